@@ -17,7 +17,7 @@ namespace LV.PoolLts
 
 /-- what the peer sees on one connection -/
 inductive SEv
-  | ehlo | noop | mail (sender : Nat) | rcpt | rcptRej | rcptTemp | data | commit (sender msg : Nat)
+  | ehlo | noop | mail (sender : Nat) | rcpt | rcptRej | rcptTemp | data | dataTemp | commit (sender msg : Nat)
   | quit | eof | kill
 deriving DecidableEq, Repr
 
@@ -28,6 +28,8 @@ structure Plan where
   dropAfter : Option Nat := none
   rejectRcpt : Option Nat := none
   tempRcpt : Option Nat := none
+  /-- answer the DATA command of that transaction with 451 -/
+  tempData : Option Nat := none
   noop421 : Option Nat := none
   slowNoop : Option Nat := none
 deriving DecidableEq, Repr
@@ -36,6 +38,8 @@ structure Conn where
   dropAfter : Option Nat := none
   rejectRcpt : Option Nat := none
   tempRcpt : Option Nat := none
+  /-- answer the DATA command of that transaction with 451 -/
+  tempData : Option Nat := none
   noop421 : Option Nat := none
   slowNoop : Option Nat := none
   noops : Nat := 0
@@ -113,7 +117,7 @@ def dropConn (k : Conn) : Conn :=
 /-- a new connection: greeting + EHLO; the peer may close right away (`dropAfter = 0`) -/
 def openConn (s : St) : St × Nat :=
   let pl := s.plans.headD {}
-  let k : Conn := { dropAfter := pl.dropAfter, rejectRcpt := pl.rejectRcpt, tempRcpt := pl.tempRcpt, noop421 := pl.noop421,
+  let k : Conn := { dropAfter := pl.dropAfter, rejectRcpt := pl.rejectRcpt, tempRcpt := pl.tempRcpt, tempData := pl.tempData, noop421 := pl.noop421,
                     slowNoop := pl.slowNoop, hist := [.ehlo] }
   let k := if pl.dropAfter == some 0 then { say k .kill with peerAlive := false } else k
   ({ s with conns := s.conns ++ [k], plans := s.plans.tail }, s.conns.length)
@@ -132,6 +136,7 @@ def transact (k : Conn) (i m : Nat) : Conn × Res :=
   let k := { say k (.mail i) with txns := k.txns + 1 }
   if k.rejectRcpt == some k.txns then (abortConn (say k .rcptRej), .perm) else
   if k.tempRcpt == some k.txns then (abortConn (say k .rcptTemp), .trans) else
+  if k.tempData == some k.txns then (abortConn (say (say k .rcpt) .dataTemp), .trans) else
   let k := say (say (say k .rcpt) .data) (.commit i m)
   let k := { k with commits := k.commits + 1 }
   if k.dropAfter == some k.commits then ({ say k .kill with peerAlive := false }, .ok) else (k, .ok)
